@@ -33,6 +33,43 @@ var ctlRoutes = map[string][3]string{ // handler -> method, path, body
 }
 
 func init() {
+	// CreateQuorumReplica -> getQuorumReplica: re-acquisition of the controller lock (needs no well-formed body: the helper is called directly)
+	replayTemplates = append(replayTemplates, replayTemplate{
+		match: func(o *Obligation) bool {
+			return o.Fn == "controller/rest.Server.CreateQuorumReplica" && strings.HasPrefix(o.Kind, "lock-free")
+		},
+		scripted: true,
+		pkg:      "controller/rest",
+		gen: func(o *Obligation, vals map[string]string) (string, bool) {
+			return `package rest
+
+import (
+	"testing"
+	"time"
+
+	"github.com/openebs/jiva/controller"
+)
+
+func TestZZReplay(t *testing.T) {
+	c := controller.NewController(controller.WithName("vol"), controller.WithRF(1))
+	s := NewServer(c)
+	done := make(chan bool, 1)
+	go func() { s.getQuorumReplica(nil, "tcp://10.0.0.1:9502"); done <- true }() // what CreateQuorumReplica does after a successful add
+	select {
+	case <-done:
+		t.Log("REPLAY-NOT-REPRODUCED")
+	case <-time.After(3 * time.Second):
+		if c.TryLock() {
+			c.Unlock()
+			t.Log("REPLAY-NOT-REPRODUCED")
+			return
+		}
+		t.Fatalf("REPLAY-REPRODUCED: getQuorumReplica holds the controller lock and calls ListQuorumReplicas, which locks again: the handler never returns and the controller lock stays held")
+	}
+}
+`, true
+		},
+	})
 	replayTemplates = append(replayTemplates, replayTemplate{
 		match: func(o *Obligation) bool {
 			if !strings.HasPrefix(o.Fn, "controller/rest.Server.") {
